@@ -326,7 +326,7 @@ def gen_single(seed, idx):
         flags = []
         if mode == "flag" and field in o_file:
             v = o_file.pop(field)
-            flags = gen.flag_args({field: v})
+            flags = gen.flag_args({field: v}, r)
         elif mode == "both" and field in o_file:
             v = o_file[field]
             o_file[field] = override
